@@ -194,6 +194,13 @@ def sv_quoted(rng, reader):
 
 def sv_temporal(rng, reader):
     d = dt.date(rng.choice((1999, 2000, 2024)), rng.randint(1, 12), rng.randint(1, 28))
+    if datespec.KEEPS_LEAP_AS_TEXT[reader] and rng.random() < 0.12:
+        # seconds = 60: kept as text by PVL, ISIS and the default loader
+        t = datespec.render_time(rng.randint(0, 23), rng.randint(0, 59), 60,
+                                 rng.choice(("", "5", "123")), rng.choice(("", "Z")))
+        text = t if rng.random() < 0.5 else \
+            datespec.render_date(d, rng.choice(("ymd", "doy"))) + "T" + t
+        return text, text, "temporal:leap", False
     kind = rng.choice(("date", "time", "datetime"))
     dform = rng.choice(("ymd", "doy"))
     if kind == "date":
